@@ -1021,6 +1021,8 @@ impl PoolSpec {
                 match rep {
                     Rep::Alloc(Ok(is)) => self.on_issued(st, r, is)?,
                     Rep::Alloc(Err(_)) => {
+                        // (a refusal is always safe for C07; whether a bump allocator has room left depends on the alignment of its
+                        // backing buffer's ADDRESS, so refusals are not comparable between runs and no refusal profile is kept here)
                         st.refused += 1;
                         if r.size >= 1 << 31 {
                             st.refused_huge += 1;
